@@ -1,6 +1,7 @@
 import SamVerif.Props.C02
 /-! Axiom audit of every C02 property theorem (parsed by vlib/common.py). -/
 open SamVerif.Opt
+open SamVerif.OptTemp
 #print axioms fold_exact
 #print axioms fold_val_exact
 #print axioms fold_nofold_traps
@@ -39,3 +40,8 @@ open SamVerif.Opt
 #print axioms inline_preserves
 #print axioms iterLoop_preserves
 #print axioms lvnLoop_preserves
+#print axioms phases_disjoint
+#print axioms stale_counter_collides
+#print axioms rounds_invariant
+#print axioms lowering_disjoint
+#print axioms missing_last_sync_collides
